@@ -292,7 +292,10 @@ def check_presence(case, ref, tree, model_funcs, language="c++", ns_members=None
                                      "%s is wrapped for %s (%s) but does not occur in the %s output" % (fname, lang, how, lang)))
             elif not lang_files[lang]:
                 continue
-            elif lang == "fortran" and eon["c"] and "fortran" not in ns_level:
+            elif lang == "fortran" and eon["c"] and ("fortran" not in ns_level or
+                                                      any("fortran" in v for v in switch_on.values())):
+                # (a namespace switched off for Fortran has no module at all - unless a declaration in it is
+                #  switched on again, which brings the module and with it the interfaces of its C wrappers back)
                 # the C wrapper is on: its bind(C) interface legitimately remains in the
                 # module; what must be gone is the Fortran wrapper procedure itself
                 if fname.lower() in fortran_procedures(lang_files[lang]):
@@ -514,7 +517,7 @@ def block_candidates(model):
     for _p, f in smallgen.walk_functions(model):
         counts[f.get("name")] = counts.get(f.get("name"), 0) + 1
     for i, n in enumerate(model["decls"]):
-        if n["kind"] == "class" and n.get("methods") and not n.get("members"):
+        if n["kind"] == "class" and n.get("methods"):
             others = json.dumps([m for j, m in enumerate(model["decls"]) if j != i])
             if re.search(r"\b%s\b" % re.escape(n["name"]), others):
                 continue
@@ -567,6 +570,14 @@ def run(ctx):
         funcs = model_function_names(m)
         blocks = block_candidates(m)
         cases = smallgen.sample(case_strategy([f for f, _ in funcs], overload_names(m), deep_function_names(m), namespace_members(m), blocks), ctx.seed + len(jobs), ncase)
+        # systematic: the first class that can stand in a block, switched off there for one group of languages at
+        # a time while everything is on at library level
+        cls_keys = [b for b in sorted(blocks) if b.startswith("class ")]
+        if cls_keys:
+            for off in (["python"], ["c", "fortran"], ["lua"]):
+                cases.append(dict(flags=dict(c=True, fortran=True, python=True, lua=True),
+                                  dirs=dict({k: None for k in KINDS}, outdir="d0", logdir="d0"),
+                                  overrides={}, switch_on={}, ns_off={}, block_off={cls_keys[0]: off}))
         jobs.append((m["library"], smallgen.to_yaml(m), [], cases, funcs, False, namespace_members(m), blocks))
     import random  # deterministic corpus selection from VERIF_SEED
     rnd = random.Random(ctx.seed)
